@@ -83,18 +83,24 @@ def procvar_group(case, fast):
             return ProcessDesc(d[1], d[2], d[3])
         return PacketDesc(SyncManager(d[1]), d[2], d[3])
 
-    terms = []
+    terms, classes = [], {}
     for ti, ts in enumerate(case["terms"]):
-        attrs = {}
-        for vi, v in enumerate(case["vars"]):
-            if v["t"] != ti or v.get("alias") is not None:
-                continue
-            if v["struct"] is None:
-                attrs[f"v{vi}"] = desc(v["desc"])
-            else:
-                ch = type(f"Ch{vi}", (Struct,), {"m": desc(v["desc"])})
-                attrs[f"c{vi}"] = ch(*v["struct"])
-        t = type(f"T{ti}", (EBPFTerminal,), attrs)(ec)
+        # terminals may be instances of one class (`twin: k` = the class of terminal k, as two terminals of one type are):
+        # the class carries the descriptors of the variables of all its instances; a variable with `same: k` is reached
+        # through the very descriptor of variable k, on its own terminal
+        cid = ts.get("twin", ti)
+        if cid not in classes:
+            attrs = {}
+            for vi, v in enumerate(case["vars"]):
+                if case["terms"][v["t"]].get("twin", v["t"]) != cid or v.get("alias") is not None or v.get("same") is not None:
+                    continue
+                if v["struct"] is None:
+                    attrs[f"v{vi}"] = desc(v["desc"])
+                else:
+                    ch = type(f"Ch{vi}", (Struct,), {"m": desc(v["desc"])})
+                    attrs[f"c{vi}"] = ch(*v["struct"])
+            classes[cid] = type(f"T{cid}", (EBPFTerminal,), attrs)
+        t = classes[cid](ec)
         t.position = ts["position"]
         t.pdos = {(i, s): (SyncManager(sm), off, size) for i, s, sm, off, size in ts["pdos"]}
         t.pdo_in_off, t.pdo_out_off = 0x1100, 0x1000
@@ -129,7 +135,8 @@ def procvar_group(case, fast):
     for vi, v in enumerate(case["vars"]):
         if v.get("alias") is None:
             t = terms[v["t"]]
-            objs[vi] = getattr(t, f"v{vi}") if v["struct"] is None else getattr(t, f"c{vi}").m
+            k = vi if v.get("same") is None else v["same"]
+            objs[vi] = getattr(t, f"v{k}") if v["struct"] is None else getattr(t, f"c{k}").m
     for vi, v in enumerate(case["vars"]):
         setattr(devs[v["dev"]], f"tv{vi}", objs[vi if v.get("alias") is None else v["alias"]])
 
@@ -173,28 +180,48 @@ def procvar_group(case, fast):
             configure(nxt)
         _start_slow(sg)
         return {"sg": sg, "terms": terms, "devs": devs, "pvs": pvs, "prior": prior, "restarts": restarts}
-    restarts = []
+    restarts, generated = [], []
     with fsim.fake_maps() as created:
-        sg = FastSyncGroup(ec, devs)
-        for nxt in earlier[1:] + ([case["terms"]] if earlier else []):
-            # started before (allocate() is what FastSyncGroup.start() does first); Python read every variable in
-            # the frame that came back (fast_update), then the configuration changed
-            sg.allocate()
-            frame = bytes(sg.packet.assemble(6, 0x88A4))
-            sg.current_data = bytearray(frame)
+        if case.get("prior"):
+            # some of the devices ran before in a fast group of their own: its program was generated (what
+            # FastEtherCat.register_sync_group does through load()) under the layout of that group
+            pg = FastSyncGroup(ec, [devs[i] for i in case["prior"]["devs"]])
+            pg.allocate()
+            pg.assemble()
+            generated.append({"assign": dict(pg.pdo_assign), "devs": list(case["prior"]["devs"])})
+        sg = None
+        for k, conf in enumerate(earlier):
+            # an earlier start under the configuration of that time (earlier[0] is configured already).  A program is
+            # generated once per group object, so an earlier start that reached the bus had a FastSyncGroup object of its
+            # own over the same devices: allocated, program generated (register_sync_group -> load()).  The last earlier
+            # start was, in addition, one of the present group object (allocate() is what FastSyncGroup.start() does first).
+            # Python then read every variable in the frame that came back (fast_update).
+            if k:
+                configure(conf)
+            g = FastSyncGroup(ec, devs)
+            g.allocate()
+            g.assemble()
+            generated.append({"assign": dict(g.pdo_assign), "devs": list(range(ndev)), "restart": k})
+            if k == len(earlier) - 1:
+                g = sg = FastSyncGroup(ec, devs)
+                g.allocate()
+            frame = bytes(g.packet.assemble(6, 0x88A4))
+            g.current_data = bytearray(frame)
             for vi, v in enumerate(case["vars"]):
                 try:
                     getattr(devs[v["dev"]], f"tv{vi}")
                 except Exception:
                     break
-            sg.current_data = None
-            restarts.append({"frame": frame, "assign": dict(sg.pdo_assign)})
-            configure(nxt)
+            g.current_data = None
+            restarts.append({"frame": frame, "assign": dict(g.pdo_assign)})
+        configure(case["terms"])
+        if sg is None:
+            sg = FastSyncGroup(ec, devs)
         sg.allocate()
         sg.assemble()
-    (fd, args), = created
+    fd, args = created[-1]
     return {"sg": sg, "terms": terms, "devs": devs, "pvs": pvs, "insns": list(sg.opcodes), "var_fd": fd,
-            "var_size": args[2], "off_wkc_errors": sg.__dict__["wkc_errors"], "restarts": restarts,
+            "var_size": args[2], "off_wkc_errors": sg.__dict__["wkc_errors"], "restarts": restarts, "generated": generated,
             "dv_off": [devs[d["dev"]].__dict__[f"dv{j}"] for j, d in enumerate(case["dvs"])]}
 
 
